@@ -42,6 +42,13 @@ def iota (norb : Nat) (v : Vec) : Vec :=
 /-- exact operator action expressed in FQE's determinant convention -/
 def applyOpFqe (norb : Nat) (op : Op) (v : Vec) : Vec := iota norb (applyOpSpec op (iota norb v))
 
+/-- ι for number-broken wavefunctions (beta axis reversed without signs) -/
+def iotaNB (norb : Nat) (v : Vec) : Vec :=
+  v.fold (fun acc k c => acc.insert k (GQ.signed (embedSignNB norb k.1 k.2) c)) {}
+
+/-- exact operator action expressed in the convention of number-broken wavefunctions -/
+def applyOpFqeNB (norb : Nat) (op : Op) (v : Vec) : Vec := iotaNB norb (applyOpSpec op (iotaNB norb v))
+
 /-- `⟨bra|ket⟩`, conjugate-linear in the first slot (convention independent) -/
 def inner (bra ket : Vec) : GQ :=
   bra.fold (fun acc k c => match ket[k]? with
